@@ -159,7 +159,7 @@ var sims = map[string]sim.SimFunc{
 		})
 	},
 	"c11t": func(c *sim.Ctx) {
-		tcpsim.Run(c, tcpsim.RunCfg{Lifecycle: true, Gen: tcpsim.GenCfg{MaxConns: 8, AllowNoEnd: true, AllowRST: true, CloseFlush: true, Reopen: true, BackJumps: true, Short: true, SynData: true, Wide: true}}, mk)
+		tcpsim.Run(c, tcpsim.RunCfg{Lifecycle: true, Gen: tcpsim.GenCfg{MaxConns: 8, AllowNoEnd: true, AllowRST: true, CloseFlush: true, Reopen: true, BackJumps: true, Short: true, SynData: true, Wide: true, Drift: true}}, mk)
 	},
 }
 
